@@ -113,6 +113,7 @@ class Interp:
         self.symbolic_tables = None     # id(list) -> name: lookups with a bit-field index stay symbolic
         self.inverse_tables = {}        # name of table A -> name of table B with A[B[x]] = x
         self.oob = []                   # (index, size) of reads of constant tables with a concrete index outside the table
+        self.uninit_reads = []          # (location, where): scalar reads of storage that was allocated and never written
         self.oob_may = []               # (table, index value, (lo, hi), size, where): index range of a constant-table read leaves the table
         self.const_override = None      # qualified global name -> value: analyse the code for another value of a constant
         self.callsites_seen = set()
@@ -535,6 +536,8 @@ class Interp:
             for s, l in self.lv(e, st, fr):
                 self.emit('preload', s, loc=l, node=n)
                 v = self.load(s, l, self.T(n), node=n)
+                if v == UNINIT and (self.T(n) or {}).get('k') in ('int', 'ptr', 'bool', 'enum'):
+                    self.uninit_reads.append((l, nloc(n)))
                 v = self.enum_default(v, self.T(n))
                 self.emit('load', s, loc=l, val=v, node=n)
                 out.append((s, v))
@@ -1380,6 +1383,9 @@ class Interp:
     def implicit_ctor(self, n, st, fr, target, callee):
         rec = self.prog.records.get(callee.get('rec'))
         st.mem[(target[0], target[1] + ('$dyn',))] = ('type', callee.get('rec'))
+        if callee.get('trivial') and not n.get('args') and isinstance(target[0], tuple) and target[0] and target[0][0] == 'new':
+            # default-initialisation of a trivially constructible heap object: `new T` leaves the storage as it was, `new T()` zeroes it
+            st.mem[(target[0], target[1] + ('$def',))] = C(0) if n.get('zeroing') else UNINIT
         if rec:
             for f in rec['fields']:
                 if 'init' in f:
